@@ -11,6 +11,8 @@ from .explore_choice import Horizon, ReplayDivergence
 # residues: list of (resname, [atomnames]); edges: residue index pairs; intra-residue atoms are bonded as a chain
 TYPES = {
     "W": dict(res=[("W", ["w"])], edges=[]),
+    # a one-residue molecule whose residue name is the conventional water name (structure readers like to drop it)
+    "SOL": dict(res=[("SOL", ["w"])], edges=[]),
     "CH2": dict(res=[("S", ["a"]), ("S", ["a"])], edges=[(0, 1)]),
     "CH3": dict(res=[("S", ["a"]), ("S", ["a"]), ("S", ["a"])], edges=[(0, 1), (1, 2)]),
     "CH4": dict(res=[("S", ["a"]), ("B", ["b"]), ("S", ["a"]), ("B", ["b"])], edges=[(0, 1), (1, 2), (2, 3)]),
@@ -37,7 +39,7 @@ TYPES = {
                  edges=[(0, 1), (1, 2), (2, 3)]),
     "MIX3": dict(res=[("S", ["a"]), ("D", ["p", "q"]), ("T", ["x", "y", "z"])], edges=[(0, 1), (1, 2)]),
 }
-DEFAULT_VOLUMES = {"W": 0.5, "S": 0.5, "B": 1.0, "D": 0.5, "T": 1.0, "K": 0.5}
+DEFAULT_VOLUMES = {"SOL": 0.5, "W": 0.5, "S": 0.5, "B": 1.0, "D": 0.5, "T": 1.0, "K": 0.5}
 BOND_LEN = 0.3
 
 
